@@ -298,7 +298,9 @@ def _rows(a, i):
     including for a single record (NumPy's void scalars alias the array)"""
     ii = i if isinstance(i, tuple) else (i,)
     if builtins.any(x is None for x in ii):
-        raise Unsupported("newaxis in record indexing")
+        if builtins.all(x is None for x in ii):
+            return a.reshape((1,) * len(ii) + a.shape)      # arr[None]: a new leading axis (view)
+        raise Unsupported("newaxis mixed with other indices in record indexing")
     if builtins.any(x is Ellipsis for x in ii):
         if len(ii) == 1:
             return a[...]
